@@ -6,7 +6,7 @@ import Mimium.Model.Publish
 Lean model of mirgen (`Model/Publish.lean`) publishes for `dsp` with the skeleton of the real compiler.
 Input: `id \t status \t skeleton \t rec|rec|… [\t sexpr]` with rec = `trace@cursor@vmwords@wasmwords`, trace = `K:g:pos:size;…`.
 Output: `id \t ok <samples> <accesses>` or `id \t bad:<sample>:<reason>` or `id \t skip:<status>`, then (third field)
-`same|diff model=<skeleton>` + ` cells=<n> depth=<d> delays=<k> zero=<pruned children> cls=<0|1> sites=<0|1>`, or `nomodel:<why>` -/
+`same|diff model=<skeleton>` + ` cells=<n> depth=<d> delays=<k> zero=<pruned children> cls=<0|1> clsz=<0|1> sites=<0|1>`, or `nomodel:<why>` -/
 open Mimium Mimium.Layout Mimium.StateTree Mimium.Core Mimium.FlatTree Mimium.Publish
 
 def nodupB : List Nat → Bool
@@ -41,9 +41,10 @@ def pubLine (skel : String) (sx : String) : String :=
     | some lay =>
       let m := (publishedSk lay).show
       let cls := noStateInArms P P.dsp.body
+      let clsz := noStatefulInArms P P.dsp.body
       let sites := sitesOkB P.dsp.body && P.fns.all (fun d => sitesOkB d.body)
       let nzero := countSk lay.sk - countSk (publishedSk lay)
-      let info := s!" cells={skCellCount (publishedSk lay)} depth={skDepth (publishedSk lay)} delays={countDelays lay.cells} zero={nzero} cls={if cls then 1 else 0} sites={if sites then 1 else 0}"
+      let info := s!" cells={skCellCount (publishedSk lay)} depth={skDepth (publishedSk lay)} delays={countDelays lay.cells} zero={nzero} cls={if cls then 1 else 0} clsz={if clsz then 1 else 0} sites={if sites then 1 else 0}"
       if m == skel then "same" ++ info else s!"diff model={m}" ++ info
 
 def parseAccess (s : String) : Option (Bool × Access) :=
